@@ -1112,18 +1112,20 @@ func traceStage(c *Ctx, t *tree, cfg, baseStr string, kOf map[string]string, nex
 // ---------------------------------------------------------------- driver
 func runC17(c *Ctx) {
 	c.Rule = "exhaustive: every string of length <= L over the alphabet {g r Z 7 _ . / \\ NUL space ~ 0xff}, with and without .gr, " +
-		"under the 4 IO-flag combinations (real sanitizeFileName vs the extracted Coq model on every one of them; L=4 quick, 6 thorough; " +
-		"lengths 5 and 6 as coded cases, also compared with a Go re-statement); 16 configurations for registration; save/load/image.save/exec/run programs with real file-system " +
-		"observation in a scratch tree per configuration. non-trivial = distinct (configuration, non-empty name) accepted under restricted IO, " +
-		"plus distinct file-system cases that changed the tree"
+		"under the 4 IO-flag combinations: real sanitizeFileName vs the extracted Coq model on every one of them (L=4 quick, 6 thorough; " +
+		"lengths 5 and 6 as coded cases, also compared with a Go re-statement); all 256 byte values alone/embedded; random longer names; " +
+		"16 configurations for registration (child process each); save-then-load programs for every name of length <= 3 (quick) / 4 (thorough) " +
+		"with and without .gr plus curated sequences (image.save, exec, run, OS failures) in 7 configurations with real file-system observation " +
+		"in a scratch tree with decoys; system calls of 3 restricted configurations recorded with strace and compared with the model's access log. " +
+		"non-trivial = distinct (configuration, non-empty name) accepted under restricted IO, plus distinct file-system cases that changed the tree"
 	log.SetLogLevelQuiet(log.Error)
 	if c.ReplayCase != "" {
 		c17Replay(c, c.ReplayCase)
 		return
 	}
-	maxLen, modelLen, fsLen := 4, 4, 2
+	maxLen, modelLen, fsLen := 4, 4, 3
 	if c.Thorough() {
-		maxLen, modelLen, fsLen = 6, 4, 3
+		maxLen, modelLen, fsLen = 6, 4, 4
 	}
 	// ---- SAN
 	s := newSanSweep(c)
@@ -1242,7 +1244,8 @@ func runC17(c *Ctx) {
 		kOf[token(content)] = n
 	}
 	sort.Strings(baseParts)
-	baseStr := strings.Join(baseParts, ",")
+	c.Case("DEF B0 "+strings.Join(baseParts, ","), "ok") // the baseline tree as the model sees it, named once
+	baseStr := "=B0"
 	k := 1000
 	nextK := func() int { k++; return k }
 	for _, cfg := range []string{"1100", "1110", "1101", "1111", "0000", "1000", "0100"} {
